@@ -70,6 +70,10 @@ CLAIMED = {
         text="cyclic_rejected: whatever loads has no directed cycle among its down-revision and dependency links (any set of revisions each linking into the set survives every pass of _revisions_in_cycles, so _detect_cycles raises); acyclic_accepted / acyclic_loads: a well-formed history whose links admit a rank function passes all six checks of _detect_cycles (every revision lies between a head and a base; the peeling ends empty within n passes); heads_bases: reported heads/real heads/bases/real bases are exactly the revisions nobody's down-revision / nobody links to / without down-revision / without links; traversals return the full reachable set within their fuel (closure_total; the sort: C01/C02). The defect F1 (reachability-only check) is repaired in /repo and the model mirrors the repaired code. Every digraph on <=3 revisions (thorough 4) is loaded through the real RevisionMap and compared.",
         note="acyclicity is stated as existence of a rank function in acyclic_accepted and as absence of a self-sustaining set in cyclic_rejected; their equivalence for finite graphs is classical and not formalised here (acyclic_no_cycle gives one direction); links are down-revisions plus dependencies as the code resolves them (ids first, then branch labels).",
         technique=T_GENERIC),
+    "C16": dict(engine="rev", ref="6/C16",
+        text="full_id (a full revision id resolves to that revision), plain_sound (a plain identifier resolves to a revision only if it is a key of the map for it - its id or a label it carries - or a prefix of its id and of no other id of >=4 characters), prefix_unique_partial (the documented unique-prefix rule when all ids have >=4 characters) next to the kernel-checked counterexample for shorter ids (known finding F13), symbolic_heads/base; the label-prefix defect F10 is repaired in /repo. Every prefix of every id and label, every label@x combination and offsets up to 3 are resolved through the real RevisionMap and compared with the model; relative and branch-qualified results are judged by Lean oracles (exact distance, branch membership, documented meaning of head/heads/base).",
+        note="no unbounded theorem about _walk / relative forms yet (correspondence + Lean oracles on implementation output).",
+        technique=T_GENERIC),
     "C17": dict(engine="gen", ref="6/C17",
         text="repr_roundtrip / repr_file (the four identifier assignments of script.py.mako decode to the requested values for ALL strings and tuples), incremental_partial (for every history that loads and every accepted new revision the incrementally updated map equals the reloaded map on ids, down revisions, resolved and normalised dependencies, children, label keys, heads, real heads, bases, real bases; full view when no labels), filename_suffix/accepted; counterexamples for the branch-label component (F5), the unescaped docstring (F12) and a '.#' id are kernel-checked and recorded as known findings. After every real generate_revision/command.revision/command.merge call the incremental ScriptDirectory is compared with a fresh one and with the model.",
         note="Mako substitution is literal; Python tokenizer/importer and filesystem exercised live; \\w and str.lower() are parameters; 'the extended history loads' is a hypothesis of incremental_partial (checked on every case).",
